@@ -792,7 +792,7 @@ func (e *Env) Exec(op Op) (Out, []Dump) {
 		panic("unknown op kind " + op.K)
 	}
 	var dumps []Dump
-	if e.NoDumps {
+	if e.NoDumps && op.K != "reopen" {
 		return out, nil
 	}
 	switch {
